@@ -23,6 +23,7 @@ import (
 	"strings"
 	"sync"
 	"time"
+	"verif/harness/internal/drv"
 
 	"github.com/jimsnab/go-lane"
 	redisemu "github.com/jimsnab/go-redisemu"
@@ -405,7 +406,7 @@ func main() {
 			// ---- a waiter on several keys is woken by a push to one key and finds an element in an earlier
 			// one (both pushed in one transaction): whichever it takes, nobody may stay blocked on a list
 			// that still holds an element
-			{
+			if os.Getenv("BLOCK_ONLY_MODEL") == "" {
 				vs := redisemu.VerifNewStore("")
 				w1, w2, p := vs.NewClient(), vs.NewClient(), vs.NewClient()
 				ch1 := async(w1, "BLPOP", "ma", "mb", "0")
@@ -500,6 +501,21 @@ func main() {
 			fail("oracle", n, steps, problem)
 		} else if len(samples) < 3 && len(steps) > 4 {
 			samples = append(samples, "scenario: "+strings.Join(steps, " | "))
+		}
+	}
+
+	// ---- multi-key scenarios against the Lean model of the wake-up accounting (mwake.go)
+	if *which == "C11" && failures == 0 {
+		if d, err := drv.Start(); err != nil {
+			fail("model", 0, nil, "cannot start the model driver: "+err.Error())
+		} else {
+			for n := 0; n < *rounds*5 && failures == 0; n++ {
+				problem, steps := runModelScenario(d, *seed*7368787+int64(n), stats)
+				if problem != "" {
+					fail("model", n, steps, problem)
+				}
+			}
+			d.Close()
 		}
 	}
 
